@@ -78,7 +78,7 @@ Proof. intros Hat Hx Hf. rewrite (at_fetch_ti _ _ _ _ _ Hat) in Hf. congruence. 
 Lemma frag_first p : frag p = true -> forall t c, cg p = t :: c -> forall a, res_instr prog addr a t IRet -> False.
 Proof.
   induction p as [ | ins | p1 IH1 p2 IH2 | p1 IH1 p2 IH2 | p1 IH1 | p1 IH1 | p1 IH1 | | n m p1 IH1 | r prec mode
-                 | r p1 IH1 | p1 IH1 | pre p1 IH1 post | r mode p1 IH1 | p1 IH1 p2 IH2 | l r mode | l p1 IH1 ];
+                 | r p1 IH1 | p1 IH1 | pre p1 IH1 post | r mode p1 IH1 | p1 IH1 p2 IH2 | l r mode | l p1 IH1 | p1 IH1 ];
     cbn [frag cg]; intros Hf t c E a Hr; try discriminate.
   - injection E as <- <-. cbn in Hr. subst ins. discriminate Hf.
   - apply andb_prop in Hf as [Hf1 Hf2]. destruct (cg p1) as [|t1 c1] eqn:E1; cbn [app] in E.
